@@ -21,6 +21,9 @@ pub struct Profile {
     pub parts: bool,
     pub skips: bool,
     pub returns: bool,
+    /// also write `&` where no token of the rule has been consumed yet (C01-C03, C11, text only:
+    /// a listed finding of C03 makes such parsers spin)
+    pub leading_return: bool,
     /// markers/creations that cross each other or reach into alternatives
     pub crossing: bool,
     pub shuffle_decls: bool,
@@ -55,6 +58,7 @@ impl Profile {
             parts: false,
             skips: false,
             returns: false,
+            leading_return: false,
             crossing: false,
             shuffle_decls: false,
             empty_rules: false,
@@ -73,7 +77,7 @@ impl Profile {
     /// everything the grammar language has, including shapes that only matter to the front
     /// end: unreachable rules, parenthesised node operators, start-rule renames
     pub fn text() -> Profile {
-        Profile { c11_shapes: true, unreachable_rules: true, paren_deco: true, name: "text", ..Profile::full() }
+        Profile { c11_shapes: true, unreachable_rules: true, paren_deco: true, leading_return: true, name: "text", ..Profile::full() }
     }
     pub fn full() -> Profile {
         Profile {
@@ -545,6 +549,9 @@ impl Deco<'_, '_, '_> {
                 out.push(Regex::Pred(None));
             }
         }
+        if p.returns && p.leading_return && !self.is_start && !left_rec_branch && self.b.d.chance(1, 20) {
+            out.push(Regex::Return);
+        }
         let mut active = active_choice;
         let n_items = items.len();
         // marker/creation pair over a random sub-range
@@ -678,6 +685,11 @@ impl Deco<'_, '_, '_> {
                             if rec {
                                 // recursive operator branches: trailing rename / action only (I-6)
                                 let mut items = Self::as_list(c);
+                                // a rename in front of the left operand names the operator node too
+                                if self.b.p.nodeops && items.first() == Some(&Regex::Ref(rule)) && self.b.d.chance(1, 6) {
+                                    let name = self.node_name();
+                                    items.insert(0, Regex::Rename(name));
+                                }
                                 if self.b.p.preds && self.b.d.chance(1, 6) {
                                     items.insert(0, Regex::Pred(Some(1)));
                                 }
